@@ -3,10 +3,10 @@ package main
 import (
 	"bytes"
 	"context"
-	"os/exec"
 	"encoding/json"
 	"fmt"
 	"os"
+	"os/exec"
 	"path/filepath"
 	"regexp"
 	"sort"
@@ -16,37 +16,88 @@ import (
 	"github.com/tmpim/casket/casketfile"
 )
 
+// ---- inputs ----
 type c10Line struct {
 	Dir  string    `json:"dir"`
 	Args []string  `json:"args,omitempty"`
 	Sub  []c10Line `json:"sub,omitempty"`
-	Has  bool      `json:"has,omitempty"` // has a { } sub-block (possibly empty -> rendered only if Sub non-empty)
 }
 type c10Block struct {
 	Keys  []string  `json:"keys"`
 	Lines []c10Line `json:"lines"`
 }
+type c10ETok struct {
+	T  string `json:"t"`
+	NL bool   `json:"nl,omitempty"` // starts on a new line relative to the previous token of its group
+}
+type c10EGroup struct {
+	Dir  string    `json:"dir"`
+	Toks []c10ETok `json:"toks"`
+}
+type c10EBlock struct {
+	Keys   []string    `json:"keys"`
+	Groups []c10EGroup `json:"groups"`
+}
 type c10In struct {
-	Kind   string     `json:"kind"` // lex | raw | ast
-	Text   string     `json:"text,omitempty"`
-	Blocks []c10Block `json:"blocks,omitempty"`
-	Split  int        `json:"split,omitempty"` // 0 inline, 1 imports, 2 snippets
-	Seed   uint64     `json:"seed,omitempty"`  // layout / split choices
-	Braces bool       `json:"braces,omitempty"`
-	Files  map[string]string `json:"files,omitempty"` // cycle: files written next to the main file "Casketfile"
-	Env    map[string]string `json:"env,omitempty"`   // cycle: extra environment of the child
+	Kind     string            `json:"kind"` // lex | parse
+	Tag      string            `json:"tag,omitempty"`
+	Text     string            `json:"text,omitempty"`  // lex: the input; parse: a label
+	Main     string            `json:"main,omitempty"`  // the Casketfile
+	Files    map[string]string `json:"files,omitempty"` // files next to it (relative paths)
+	Dirs     []string          `json:"dirs,omitempty"`  // empty directories next to it
+	Env      map[string]string `json:"env,omitempty"`   // extra environment (child only)
+	Child    bool              `json:"child,omitempty"` // run in a child process under a watchdog (possible cycles)
+	HasExp   bool              `json:"has_exp,omitempty"`
+	Expected []c10EBlock       `json:"expected,omitempty"` // what the generating AST says
 }
 
-var c10Env = map[string]string{"V_A": "alpha", "V_E": "", "V_SP": "two words", "V_REC": "a{$V_A}b", "V_LOOP": "x{$V_LOOP}", "V_PCT": "{%V_A%}"}
+var c10Env = map[string]string{"V_A": "alpha", "V_E": "", "V_SP": "two words", "V_REC": "a{$V_A}b", "V_LOOP": "x{$V_LOOP}",
+	"V_PCT": "{%V_A%}", "V_NL": "l1\nl2", "V_BR": "{", "V_IMP": "import", "V_F": "inc1.conf"}
 var c10ErrRe = regexp.MustCompile(`^\S+:\d+ - `)
 var c10Poisoned bool
 
+const c10Cap = 100 // import bound used when evaluating the model (the implementation's maxImports is 10000)
+
 func cRunes(s string) string {
-	var it []string
-	for _, r := range []rune(s) { // Go's decoder: invalid bytes become U+FFFD, as bufio.ReadRune does
-		it = append(it, fmt.Sprintf("%d", r))
+	// printable ASCII (plus tab and line feed) goes into Coq string literals, everything else into
+	// explicit rune lists; Go's decoder turns invalid bytes into U+FFFD, as bufio.ReadRune does
+	var parts []string
+	var cur strings.Builder
+	var nums []string
+	flushS := func() {
+		if cur.Len() > 0 {
+			parts = append(parts, "bs \""+cur.String()+"\"")
+			cur.Reset()
+		}
 	}
-	return "[" + strings.Join(it, "; ") + "]%N"
+	flushN := func() {
+		if len(nums) > 0 {
+			parts = append(parts, "["+strings.Join(nums, "; ")+"]%N")
+			nums = nil
+		}
+	}
+	for _, r := range []rune(s) {
+		if (r >= 32 && r < 127) || r == '\n' || r == '\t' {
+			flushN()
+			if r == '"' {
+				cur.WriteString("\"\"")
+			} else {
+				cur.WriteRune(r)
+			}
+		} else {
+			flushS()
+			nums = append(nums, fmt.Sprintf("%d", r))
+		}
+	}
+	flushS()
+	flushN()
+	switch len(parts) {
+	case 0:
+		return "[]"
+	case 1:
+		return "(" + parts[0] + ")"
+	}
+	return "(" + strings.Join(parts, " ++ ") + ")"
 }
 
 func cRunesList(xs []string) string {
@@ -57,40 +108,227 @@ func cRunesList(xs []string) string {
 	return cList(it)
 }
 
-func c10EnvTerm() string {
-	keys := make([]string, 0, len(c10Env))
-	for k := range c10Env {
+func c10EnvTerm(extra map[string]string) string {
+	m := map[string]string{}
+	for k, v := range c10Env {
+		m[k] = v
+	}
+	for k, v := range extra {
+		m[k] = v
+	}
+	keys := make([]string, 0, len(extra))
+	for k := range extra {
 		keys = append(keys, k)
 	}
 	sort.Strings(keys)
 	var it []string
 	for _, k := range keys {
-		it = append(it, cPair(cStr(k), cStr(c10Env[k])))
+		it = append(it, cPair(cStr(k), cStr(m[k])))
 	}
-	return cList(it)
+	if len(it) == 0 {
+		return "std_env"
+	}
+	return "(" + cList(it) + " ++ std_env)" // extra entries shadow the standard ones
 }
 
-type c10Group struct {
-	dir  string
-	toks []string
+// ---- observation ----
+type c10OTok struct {
+	F int    `json:"f"`
+	L int    `json:"l"`
+	T string `json:"t"`
+}
+type c10OGroup struct {
+	Dir  string    `json:"dir"`
+	Toks []c10OTok `json:"toks"`
+}
+type c10OBlock struct {
+	Keys   []string    `json:"keys"`
+	Groups []c10OGroup `json:"groups"`
+}
+type c10Obs struct {
+	Class  string      `json:"class"` // ok | error | panic | timeout | killed
+	Err    string      `json:"err,omitempty"`
+	Panic  string      `json:"panic,omitempty"`
+	Blocks []c10OBlock `json:"blocks,omitempty"`
+	Files  []string    `json:"-"`
 }
 
-func c10BlocksTerm(blocks [][2]interface{}) string {
-	var bl []string
-	for _, b := range blocks {
-		keys := b[0].([]string)
-		groups := b[1].([]c10Group)
-		sort.SliceStable(groups, func(i, j int) bool { return groups[i].dir < groups[j].dir })
-		var gs []string
-		for _, g := range groups {
-			gs = append(gs, cPair(cRunes(g.dir), cRunesList(g.toks)))
+func c10ErrClass(msg string) int {
+	if i := strings.Index(msg, " - Error during parsing: "); i >= 0 {
+		m := msg[i+len(" - Error during parsing: "):]
+		switch {
+		case strings.HasPrefix(m, "Too many imports"):
+			return 1
+		case strings.HasPrefix(m, "Import requires"), strings.HasPrefix(m, "Import takes"), strings.HasPrefix(m, "File to import"),
+			strings.HasPrefix(m, "Could not import"), strings.HasPrefix(m, "Failed to"), strings.HasPrefix(m, "Glob pattern"),
+			strings.HasPrefix(m, "Could not read tokens"):
+			return 2
+		case strings.HasPrefix(m, "Wrong argument count"), strings.HasPrefix(m, "Unexpected token '{', expecting argument"):
+			return 3
 		}
-		bl = append(bl, cPair(cRunesList(keys), cList(gs)))
 	}
-	return cList(bl)
+	return 0
 }
 
-// parseGuarded runs casketfile.Parse with panic capture and a watchdog.
+// names: sorted relative paths of files and directories; id = index+1; the main input has id 0
+func c10Names(in *c10In) []string {
+	set := map[string]bool{"Casketfile": true}
+	for n := range in.Files {
+		set[n] = true
+		for d := filepath.Dir(n); d != "." && d != "/"; d = filepath.Dir(d) {
+			set[d] = true
+		}
+	}
+	for _, d := range in.Dirs {
+		set[d] = true
+	}
+	var names []string
+	for n := range set {
+		names = append(names, n)
+	}
+	sort.Strings(names)
+	return names
+}
+
+func c10Observe(blocks []casketfile.ServerBlock, err error, panicked string, dir string, names []string) c10Obs {
+	switch {
+	case panicked != "":
+		return c10Obs{Class: "panic", Panic: panicked}
+	case err != nil:
+		return c10Obs{Class: "error", Err: strings.ReplaceAll(err.Error(), dir, "DIR")}
+	}
+	id := map[string]int{"": 0}
+	for i, n := range names {
+		id[filepath.Join(dir, n)] = i + 1
+	}
+	o := c10Obs{Class: "ok"}
+	for _, b := range blocks {
+		ob := c10OBlock{Keys: b.Keys}
+		for d, toks := range b.Tokens {
+			g := c10OGroup{Dir: d}
+			for _, t := range toks {
+				f, ok := id[t.File]
+				if !ok {
+					f = 9999
+				}
+				g.Toks = append(g.Toks, c10OTok{F: f, L: t.Line, T: t.Text})
+			}
+			ob.Groups = append(ob.Groups, g)
+		}
+		sort.SliceStable(ob.Groups, func(i, j int) bool { return ob.Groups[i].Dir < ob.Groups[j].Dir })
+		o.Blocks = append(o.Blocks, ob)
+	}
+	return o
+}
+
+func c10ObsTerm(o c10Obs) string {
+	switch o.Class {
+	case "ok":
+		var bl []string
+		for _, b := range o.Blocks {
+			var gs []string
+			for _, g := range b.Groups {
+				var ts []string
+				for _, t := range g.Toks {
+					ts = append(ts, "("+cN(uint64(t.F))+", "+cZ(int64(t.L))+", "+cRunes(t.T)+")")
+				}
+				gs = append(gs, cPair(cRunes(g.Dir), cList(ts)))
+			}
+			bl = append(bl, cPair(cRunesList(b.Keys), cList(gs)))
+		}
+		return cApp("OBlocks", cList(bl))
+	case "error":
+		return cApp("OError", cBool(c10ErrRe.MatchString(o.Err)), cN(uint64(c10ErrClass(o.Err))))
+	case "panic":
+		return "OPanic"
+	}
+	return "OTimeout"
+}
+
+func c10ExpTerm(in *c10In) string {
+	if !in.HasExp {
+		return "None"
+	}
+	var bl []string
+	for _, b := range in.Expected {
+		var gs []string
+		for _, g := range b.Groups {
+			var ts []string
+			for _, t := range g.Toks {
+				ts = append(ts, cPair(cRunes(t.T), cBool(t.NL)))
+			}
+			gs = append(gs, cPair(cRunes(g.Dir), cList(ts)))
+		}
+		bl = append(bl, cPair(cRunesList(b.Keys), cList(gs)))
+	}
+	return "(Some " + cList(bl) + ")"
+}
+
+// Go-side copy of the line-structure clause, used ONLY to classify the input (Sig)
+func c10StructDeviates(o c10Obs, ex []c10EBlock) (textsOK bool, structOK bool) {
+	textsOK, structOK = true, true
+	if len(o.Blocks) != len(ex) {
+		return false, false
+	}
+	for i, b := range o.Blocks {
+		if strings.Join(b.Keys, "\x00") != strings.Join(ex[i].Keys, "\x00") || len(b.Groups) != len(ex[i].Groups) {
+			return false, false
+		}
+		for j, g := range b.Groups {
+			e := ex[i].Groups[j]
+			if g.Dir != e.Dir || len(g.Toks) != len(e.Toks) {
+				return false, false
+			}
+			for k, t := range g.Toks {
+				if t.T != e.Toks[k].T {
+					textsOK = false
+				}
+				if k > 0 {
+					p := g.Toks[k-1]
+					end := p.L + strings.Count(p.T, "\n")
+					newLine := p.F != t.F || end < t.L
+					sameArg := p.F == t.F && end == t.L
+					if newLine != e.Toks[k].NL || sameArg == e.Toks[k].NL {
+						structOK = false
+					}
+				}
+			}
+		}
+	}
+	return
+}
+
+// an `import <snippet or file of this input>` left in the output as two plain tokens
+func c10UnexpandedImport(o c10Obs, in *c10In) bool {
+	all := in.Main
+	for _, c := range in.Files {
+		all += "\n" + c
+	}
+	for _, b := range o.Blocks {
+		for _, g := range b.Groups {
+			for i := 0; i+1 < len(g.Toks); i++ {
+				if g.Toks[i].T != "import" {
+					continue
+				}
+				x := g.Toks[i+1].T
+				if _, isFile := in.Files[x]; isFile || strings.Contains(all, "("+x+")") {
+					return true
+				}
+				for name := range in.Files { // a glob pattern over files of this input
+					if ok, _ := filepath.Match(x, name); ok {
+						return true
+					}
+					if ok, _ := filepath.Match(x, filepath.Base(name)); ok {
+						return true
+					}
+				}
+			}
+		}
+	}
+	return false
+}
+
+// ---- running the implementation ----
 func c10ParseGuarded(path string, data []byte) (blocks []casketfile.ServerBlock, err error, panicked string, timedOut bool) {
 	type out struct {
 		b []casketfile.ServerBlock
@@ -110,33 +348,270 @@ func c10ParseGuarded(path string, data []byte) (blocks []casketfile.ServerBlock,
 	select {
 	case o := <-ch:
 		return o.b, o.e, o.p, false
-	case <-time.After(4 * time.Second):
+	case <-time.After(5 * time.Second):
 		return nil, nil, "", true
 	}
 }
 
-func c10ObsTerm(blocks []casketfile.ServerBlock, err error, panicked string, timedOut bool) (string, string) {
-	switch {
-	case timedOut:
-		return "OTimeout", "timeout"
-	case panicked != "":
-		return "OPanic", "panic"
-	case err != nil:
-		return cApp("OError", cBool(c10ErrRe.MatchString(err.Error()))), "error"
+func c10Base() string {
+	base := os.Getenv("VERIF_ROOT")
+	if base == "" {
+		base = os.TempDir()
 	}
-	var bl [][2]interface{}
-	for _, b := range blocks {
-		var groups []c10Group
-		for dir, toks := range b.Tokens {
-			g := c10Group{dir: dir}
-			for _, t := range toks {
-				g.toks = append(g.toks, t.Text)
-			}
-			groups = append(groups, g)
+	return filepath.Join(base, "run")
+}
+
+func c10Lex(text string) []string {
+	d := casketfile.NewDispenser("x", strings.NewReader(text))
+	var out []string
+	for d.Next() {
+		out = append(out, d.Val())
+	}
+	return out
+}
+
+// expansion written independently of the implementation's loop: one left-to-right pass per
+// syntax, substituted text is not scanned again; an empty name stops the pass
+func c10ExpandOne(s, open, close string, env map[string]string) string {
+	var out strings.Builder
+	for {
+		i := strings.Index(s, open)
+		if i < 0 {
+			break
 		}
-		bl = append(bl, [2]interface{}{b.Keys, groups})
+		j := strings.Index(s[i:], close)
+		if j < 0 {
+			break
+		}
+		if j <= len(open) { // "{$}" : not a reference, and the scan gives up
+			break
+		}
+		name := s[i+len(open) : i+j]
+		out.WriteString(s[:i])
+		out.WriteString(env[name])
+		s = s[i+j+len(close):]
 	}
-	return cApp("OBlocks", c10BlocksTerm(bl)), "ok"
+	out.WriteString(s)
+	return out.String()
+}
+func c10ExpandEnv(s string) string {
+	return c10ExpandOne(c10ExpandOne(s, "{%", "%}", c10Env), "{$", "}", c10Env)
+}
+
+// glob oracle: what filepath.Glob returns for every (importing file, pattern) pair that can occur:
+// the pattern token's own file decides the directory, also for tokens spliced from a snippet
+func c10Globs(in *c10In, dir string, names []string) string {
+	id := map[string]int{}
+	for i, n := range names {
+		id[filepath.Join(dir, n)] = i + 1
+	}
+	var entries []string
+	from := append([]string{""}, names...)
+	for fi, f := range from {
+		var txt string
+		fdir := dir
+		if fi == 0 || f == "Casketfile" {
+			txt = in.Main
+		} else {
+			c, ok := in.Files[f]
+			if !ok {
+				continue
+			}
+			txt = c
+			fdir = filepath.Dir(filepath.Join(dir, f))
+		}
+		pats := map[string]bool{}
+		toks := c10Lex(txt)
+		for i := 0; i+1 < len(toks); i++ {
+			if toks[i] == "import" || c10ExpandEnv(toks[i]) == "import" {
+				pats[toks[i+1]] = true
+				pats[c10ExpandEnv(toks[i+1])] = true
+			}
+		}
+		var plist []string
+		for p := range pats {
+			if p != "" && !strings.ContainsRune(p, 0xFFFD) {
+				plist = append(plist, p)
+			}
+		}
+		sort.Strings(plist)
+		for _, p := range plist {
+			gp := p
+			if !filepath.IsAbs(p) {
+				gp = filepath.Join(fdir, p)
+			}
+			ms, err := filepath.Glob(gp)
+			if err != nil {
+				continue
+			}
+			var ids []string
+			ok := true
+			for _, m := range ms {
+				k, known := id[m]
+				if !known {
+					ok = false
+					break
+				}
+				ids = append(ids, cN(uint64(k)))
+			}
+			if ok {
+				entries = append(entries, cPair(cPair(cN(uint64(fi)), cRunes(p)), cList(ids)))
+			}
+		}
+	}
+	return cList(entries)
+}
+
+func c10FilesTerm(in *c10In, names []string) string {
+	var it []string
+	for i, n := range names {
+		var content string
+		var ok bool
+		if n == "Casketfile" {
+			content, ok = in.Main, true
+		} else {
+			content, ok = in.Files[n]
+		}
+		if ok {
+			it = append(it, cPair(cN(uint64(i+1)), "(Some "+cRunes(content)+")"))
+		} else {
+			it = append(it, cPair(cN(uint64(i+1)), "None"))
+		}
+	}
+	return cList(it)
+}
+
+type c10Res struct {
+	o c10Obs
+	g string
+}
+
+var c10ChildInputs []*c10In
+var c10Futures = map[*c10In]chan c10Res{}
+var c10PoolStarted bool
+
+// possibly cyclic inputs cost seconds each on the implementation (10000 imports): run their child
+// processes ahead of time, a few in parallel
+func c10StartPool() {
+	if c10PoolStarted {
+		return
+	}
+	c10PoolStarted = true
+	for k, v := range c10Env {
+		os.Setenv(k, v)
+	}
+	os.Unsetenv("V_UNSET")
+	sem := make(chan struct{}, 8)
+	for _, in := range c10ChildInputs {
+		ch := make(chan c10Res, 1)
+		c10Futures[in] = ch
+		go func(in *c10In, ch chan c10Res) {
+			sem <- struct{}{}
+			o, g := c10Exec(in)
+			<-sem
+			ch <- c10Res{o, g}
+		}(in, ch)
+	}
+}
+
+// c10Exec writes the files into a fresh directory, runs the implementation and asks filepath.Glob
+func c10Exec(in *c10In) (o c10Obs, globs string) {
+	os.MkdirAll(c10Base(), 0o755)
+	dir, _ := os.MkdirTemp(c10Base(), "c10")
+	defer os.RemoveAll(dir)
+	for name, content := range in.Files {
+		os.MkdirAll(filepath.Dir(filepath.Join(dir, name)), 0o755)
+		os.WriteFile(filepath.Join(dir, name), []byte(content), 0o644)
+	}
+	for _, d := range in.Dirs {
+		os.MkdirAll(filepath.Join(dir, d), 0o755)
+	}
+	path := filepath.Join(dir, "Casketfile")
+	os.WriteFile(path, []byte(in.Main), 0o644)
+	names := c10Names(in)
+	globs = c10Globs(in, dir, names)
+	if in.Child {
+		ctx, cancel := context.WithTimeout(context.Background(), 90*time.Second)
+		defer cancel()
+		cmd := exec.CommandContext(ctx, "sh", "-c", "ulimit -v 4000000; exec \"$0\" c10child \"$1\"", os.Args[0], path)
+		cmd.Env = os.Environ()
+		for k, v := range in.Env {
+			cmd.Env = append(cmd.Env, k+"="+v)
+		}
+		outb, err := cmd.Output()
+		switch {
+		case ctx.Err() != nil:
+			o = c10Obs{Class: "timeout"}
+		case json.Unmarshal(outb, &o) != nil || o.Class == "":
+			o = c10Obs{Class: "killed", Err: fmt.Sprint(err)} // memory cap or crash: did not terminate properly
+		}
+		return
+	}
+	blocks, err, p, to := c10ParseGuarded(path, []byte(in.Main))
+	if to {
+		c10Poisoned = true
+		return c10Obs{Class: "timeout"}, globs
+	}
+	return c10Observe(blocks, err, p, dir, names), globs
+}
+
+func c10Run(in0 interface{}) Result {
+	in := in0.(*c10In)
+	if c10Poisoned {
+		return Result{Term: "(CLex [] [])", Obs: "skipped after a timeout", Class: "skipped", Sig: "skipped"}
+	}
+	for k, v := range c10Env {
+		os.Setenv(k, v)
+	}
+	os.Unsetenv("V_UNSET")
+	if in.Kind == "lex" {
+		d := casketfile.NewDispenser("Testfile", strings.NewReader(in.Text))
+		var toks []string
+		n := 0
+		for d.Next() {
+			toks = append(toks, cPair(cZ(int64(d.Line())), cRunes(d.Val())))
+			n++
+		}
+		return Result{Term: cApp("CLex", cRunes(in.Text), cList(toks)), Obs: n, Sig: "lex", Nontrivial: n >= 2, Class: fmt.Sprintf("lex:%dtok", min(n, 5))}
+	}
+	var o c10Obs
+	var globs string
+	names := c10Names(in)
+	if in.Child {
+		c10StartPool()
+		if f, ok := c10Futures[in]; ok {
+			res := <-f
+			o, globs = res.o, res.g
+		} else {
+			o, globs = c10Exec(in)
+		}
+	} else {
+		o, globs = c10Exec(in)
+	}
+	direct := ""
+	if o.Class == "panic" {
+		direct = "panic: " + o.Panic
+	}
+	sig := in.Tag + ":" + o.Class
+	if in.Child {
+		sig = in.Tag + ":" + in.Text + ":" + o.Class
+	}
+	if in.Tag == "ast:env-newline" && (o.Class == "ok" || o.Class == "error") {
+		sig = in.Tag // an environment value with a line break: one class whatever the outcome
+	} else if in.HasExp && o.Class == "ok" && (in.Tag == "ast:snippets" || in.Tag == "ast:mixed") {
+		// snippet tokens keep the line numbers of their definition: classify what that did to this input
+		txt, st := c10StructDeviates(o, in.Expected)
+		switch {
+		case txt && !st:
+			sig = "ast:snippet-lines:linestruct"
+		case !txt && c10UnexpandedImport(o, in):
+			sig = "ast:snippet-lines:unexpanded-import"
+		}
+	}
+	term := cApp("CParse", "0", c10EnvTerm(in.Env), cN(c10Cap), cRunes(in.Main), c10FilesTerm(in, names), globs, c10ObsTerm(o), c10ExpTerm(in))
+	nblocks := len(o.Blocks)
+	return Result{Term: term, Obs: o, Sig: sig, Direct: direct,
+		Nontrivial: in.HasExp || in.Child || (o.Class == "ok" && nblocks > 0) || len(in.Files) > 0, Class: in.Tag + ":" + o.Class}
 }
 
 // ---- rendering of ASTs ----
@@ -177,258 +652,214 @@ func c10EOL(r *Rand) string {
 	return s
 }
 
-func c10RenderLine(l c10Line, indent string, r *Rand, sb *strings.Builder) {
+// renderer with a random partition into imported files (nested), glob groups and snippets
+type c10Rend struct {
+	r      *Rand
+	mode   int // 0 inline, 1 files, 2 snippets, 3 mixed
+	files  map[string]string
+	snips  strings.Builder
+	n      int
+	maxDep int
+}
+
+func (R *c10Rend) line(l c10Line, indent string, depth int, fdir string, sb *strings.Builder) {
+	r := R.r
 	sb.WriteString(indent + c10Quote(l.Dir, r))
 	for _, a := range l.Args {
 		sb.WriteString(c10Sep(r) + c10Quote(a, r))
 	}
 	if len(l.Sub) > 0 {
 		sb.WriteString(c10Sep(r) + "{" + c10EOL(r))
-		for _, s := range l.Sub {
-			c10RenderLine(s, indent+"\t", r, sb)
-		}
+		sb.WriteString(R.lines(l.Sub, indent+"\t", depth, fdir))
 		sb.WriteString(indent + "}")
 	}
 	sb.WriteString(c10EOL(r))
 }
 
-var c10RefPct = regexp.MustCompile(`\{%([A-Za-z_]+)%\}`)
-var c10RefDol = regexp.MustCompile(`\{\$([A-Za-z_]+)\}`)
-
-// expected expansion, written independently of the implementation's scanning loop (valid for
-// values that contain no placeholder syntax themselves)
-func c10ExpandEnv(s string) string {
-	f := func(re *regexp.Regexp) {
-		s = re.ReplaceAllStringFunc(s, func(m string) string { return c10Env[re.FindStringSubmatch(m)[1]] })
+// lines renders a run of directive lines that live in a file of directory fdir ("" or "sub/")
+func (R *c10Rend) lines(ls []c10Line, indent string, depth int, fdir string) string {
+	r := R.r
+	var sb strings.Builder
+	for i := 0; i < len(ls); {
+		if R.mode == 0 || depth >= R.maxDep || !r.Chance(35) {
+			R.line(ls[i], indent, depth, fdir, &sb)
+			i++
+			continue
+		}
+		k := r.Range(1, 3)
+		if i+k > len(ls) {
+			k = len(ls) - i
+		}
+		run := ls[i : i+k]
+		i += k
+		R.n++
+		how := R.mode
+		if how == 3 {
+			how = r.Range(1, 2)
+		}
+		switch {
+		case how == 2: // snippet (its tokens keep the file and lines of the definition)
+			name := fmt.Sprintf("sn%d", R.n)
+			body := R.lines(run, "\t", depth+1, "")
+			R.snips.WriteString("(" + name + ") {" + c10EOL(r) + body + "}" + c10EOL(r))
+			sb.WriteString(indent + "import" + c10Sep(r) + name + c10EOL(r))
+		case k >= 2 && r.Chance(40): // glob over several files
+			pre := fmt.Sprintf("g%d_", R.n)
+			cut := r.Range(1, k-1)
+			R.files[fdir+pre+"a.conf"] = R.lines(run[:cut], "", depth+1, fdir)
+			R.files[fdir+pre+"b.conf"] = R.lines(run[cut:], "", depth+1, fdir)
+			sb.WriteString(indent + "import" + c10Sep(r) + pre + r.Pick([]string{"*.conf", "?.conf", "*"}) + c10EOL(r))
+		default:
+			sub := ""
+			if fdir == "" && r.Chance(30) {
+				sub = "sub/"
+			}
+			name := fmt.Sprintf("inc%d.conf", R.n)
+			R.files[fdir+sub+name] = R.lines(run, "", depth+1, fdir+sub)
+			ref := sub + name
+			if r.Chance(15) {
+				ref = "{$V_E}" + ref // pattern goes through env replacement
+			}
+			sb.WriteString(indent + "import" + c10Sep(r) + c10Quote(ref, r) + c10EOL(r))
+		}
 	}
-	f(c10RefPct)
-	f(c10RefDol)
-	return s
+	return sb.String()
 }
 
-func c10LineTokens(l c10Line, first bool, out *[]string) {
+func c10LineTokens(l c10Line, first bool, out *[]c10ETok) {
 	if first {
-		*out = append(*out, l.Dir) // the directive's own token is stored as written
+		*out = append(*out, c10ETok{T: l.Dir, NL: true}) // the directive's own token is stored as written
 	} else {
-		*out = append(*out, c10ExpandEnv(l.Dir))
+		*out = append(*out, c10ETok{T: c10ExpandEnv(l.Dir), NL: true})
 	}
 	for _, a := range l.Args {
-		*out = append(*out, c10ExpandEnv(a))
+		*out = append(*out, c10ETok{T: c10ExpandEnv(a)})
 	}
 	if len(l.Sub) > 0 {
-		*out = append(*out, "{")
+		*out = append(*out, c10ETok{T: "{"})
 		for _, s := range l.Sub {
 			c10LineTokens(s, false, out)
 		}
-		*out = append(*out, "}")
+		*out = append(*out, c10ETok{T: "}", NL: true})
 	}
 }
 
-func c10Expected(blocks []c10Block) string {
-	var bl [][2]interface{}
+func c10Expected(blocks []c10Block) []c10EBlock {
+	var bl []c10EBlock
 	for _, b := range blocks {
-		var keys []string
+		eb := c10EBlock{}
 		for _, k := range b.Keys {
-			keys = append(keys, c10ExpandEnv(k))
+			eb.Keys = append(eb.Keys, c10ExpandEnv(k))
 		}
 		idx := map[string]int{}
-		var groups []c10Group
 		for _, l := range b.Lines {
-			var toks []string
+			var toks []c10ETok
 			c10LineTokens(l, true, &toks)
 			d := c10ExpandEnv(l.Dir)
 			if i, ok := idx[d]; ok {
-				groups[i].toks = append(groups[i].toks, toks...)
+				eb.Groups[i].Toks = append(eb.Groups[i].Toks, toks...)
 			} else {
-				idx[d] = len(groups)
-				groups = append(groups, c10Group{dir: d, toks: toks})
+				idx[d] = len(eb.Groups)
+				eb.Groups = append(eb.Groups, c10EGroup{Dir: d, Toks: toks})
 			}
 		}
-		bl = append(bl, [2]interface{}{keys, groups})
+		sort.SliceStable(eb.Groups, func(i, j int) bool { return eb.Groups[i].Dir < eb.Groups[j].Dir })
+		bl = append(bl, eb)
 	}
-	return "(Some " + c10BlocksTerm(bl) + ")"
+	return bl
 }
 
-// render returns the inline text and, for split != 0, the main text plus extra files.
-func c10Render(in *c10In) (inline string, main string, files map[string]string) {
-	files = map[string]string{}
-	rIn := NewRand(in.Seed)
-	rSp := NewRand(in.Seed) // identical layout stream for both renderings
-	var sbI, sbM, snip strings.Builder
-	nimp := 0
-	for bi, b := range in.Blocks {
-		head := func(r *Rand) string {
-			s := ""
-			for i, k := range b.Keys {
-				tok := k
-				sep := ""
-				if i < len(b.Keys)-1 {
-					switch r.Intn(3) {
-					case 0:
-						tok, sep = k+",", c10Sep(r)
-					case 1:
-						tok, sep = k+",", c10Sep(r)+"\n"
-					default:
-						sep = c10Sep(r)
-					}
+// c10Render turns blocks into a main text plus files
+func c10Render(blocks []c10Block, mode int, braces bool, seed uint64) (string, map[string]string) {
+	R := &c10Rend{r: NewRand(seed), mode: mode, files: map[string]string{}, maxDep: 4}
+	r := R.r
+	var main strings.Builder
+	for _, b := range blocks {
+		var sb strings.Builder
+		for i, k := range b.Keys {
+			tok, sep := k, ""
+			if i < len(b.Keys)-1 {
+				switch r.Intn(3) {
+				case 0:
+					tok, sep = k+",", c10Sep(r)
+				case 1:
+					tok, sep = k+",", c10Sep(r)+"\n"
+				default:
+					sep = c10Sep(r)
 				}
-				s += c10Quote(tok, r) + sep
 			}
-			return s
+			sb.WriteString(c10Quote(tok, r) + sep)
 		}
-		hI := head(rIn)
-		hM := head(rSp)
-		braces := in.Braces || len(in.Blocks) > 1
-		if braces {
-			eI, eM := c10EOL(rIn), c10EOL(rSp)
-			sbI.WriteString(hI + " {" + eI)
-			sbM.WriteString(hM + " {" + eM)
+		if braces || len(blocks) > 1 {
+			sb.WriteString(" {" + c10EOL(r))
+			sb.WriteString(R.lines(b.Lines, "\t", 0, ""))
+			sb.WriteString("}" + c10EOL(r))
 		} else {
-			eI, eM := c10EOL(rIn), c10EOL(rSp)
-			sbI.WriteString(hI + eI)
-			sbM.WriteString(hM + eM)
+			sb.WriteString(c10EOL(r))
+			sb.WriteString(R.lines(b.Lines, "\t", 0, ""))
 		}
-		for li, l := range b.Lines {
-			var one strings.Builder
-			c10RenderLine(l, "\t", rIn, &one)
-			sbI.WriteString(one.String())
-			var two strings.Builder
-			c10RenderLine(l, "\t", rSp, &two)
-			// decide per line whether it moves out
-			move := in.Split != 0 && (bi*7+li*3+int(in.Seed))%3 == 0
-			if !move {
-				sbM.WriteString(two.String())
-				continue
-			}
-			nimp++
-			if in.Split == 1 {
-				name := fmt.Sprintf("inc_%d.conf", nimp)
-				files[name] = two.String()
-				sbM.WriteString("\timport " + name + "\n")
-			} else {
-				name := fmt.Sprintf("snip%d", nimp)
-				snip.WriteString("(" + name + ") {\n" + two.String() + "}\n")
-				sbM.WriteString("\timport " + name + "\n")
-			}
-		}
-		if braces {
-			eI, eM := c10EOL(rIn), c10EOL(rSp)
-			sbI.WriteString("}" + eI)
-			sbM.WriteString("}" + eM)
+		// a whole server block may live in its own file, imported at top level
+		if mode != 0 && mode != 2 && (braces || len(blocks) > 1) && r.Chance(20) {
+			R.n++
+			name := fmt.Sprintf("site%d.conf", R.n)
+			R.files[name] = sb.String()
+			main.WriteString("import " + name + c10EOL(r))
+		} else {
+			main.WriteString(sb.String())
 		}
 	}
-	return sbI.String(), snip.String() + sbM.String(), files
+	head := R.snips.String()
+	if head != "" && mode == 3 && r.Chance(40) {
+		// snippet definitions in a file of their own, imported first
+		R.files["snips.conf"] = head
+		head = "import snips.conf\n"
+	}
+	return head + main.String(), R.files
 }
 
-var c10Dir string
-
-func c10Run(in0 interface{}) Result {
-	in := in0.(*c10In)
-	if c10Poisoned {
-		return Result{Term: "(CLex [] [])", Obs: "skipped after a timeout", Class: "skipped", Sig: "skipped"}
-	}
-	for k, v := range c10Env {
-		os.Setenv(k, v)
-	}
-	os.Unsetenv("V_UNSET")
-	switch in.Kind {
-	case "lex":
-		d := casketfile.NewDispenser("Testfile", strings.NewReader(in.Text))
-		var toks []string
-		n := 0
-		for d.Next() {
-			toks = append(toks, cPair(cZ(int64(d.Line())), cRunes(d.Val())))
-			n++
-		}
-		return Result{Term: cApp("CLex", cRunes(in.Text), cList(toks)), Obs: n, Sig: "lex", Nontrivial: n >= 2, Class: fmt.Sprintf("lex:%dtok", min(n, 5))}
-	case "raw":
-		blocks, err, p, to := c10ParseGuarded("Testfile", []byte(in.Text))
-		if to {
-			c10Poisoned = true
-		}
-		ot, cls := c10ObsTerm(blocks, err, p, to)
-		direct := ""
-		if p != "" {
-			direct = "panic: " + p
-		}
-		return Result{Term: cApp("CParse", "0", c10EnvTerm(), cRunes(in.Text), ot, "None"), Obs: map[string]interface{}{"class": cls, "err": fmt.Sprint(err), "panic": p},
-			Sig: "raw:" + cls, Direct: direct, Nontrivial: cls == "ok" && len(blocks) > 0, Class: "raw:" + cls}
-	case "cycle":
-		// potentially non-terminating inputs run in a child process under a watchdog and a memory cap
-		base := os.Getenv("VERIF_ROOT")
-		if base == "" {
-			base = os.TempDir()
-		}
-		dir, _ := os.MkdirTemp(filepath.Join(base, "run"), "c10cyc")
-		defer os.RemoveAll(dir)
-		for name, content := range in.Files {
-			os.WriteFile(filepath.Join(dir, name), []byte(content), 0o644)
-		}
-		ctx, cancel := context.WithTimeout(context.Background(), 6*time.Second)
-		defer cancel()
-		cmd := exec.CommandContext(ctx, "sh", "-c", "ulimit -v 3000000; exec \"$0\" c10child \"$1\"", os.Args[0], filepath.Join(dir, "Casketfile"))
-		cmd.Env = os.Environ()
-		for k, v := range in.Env {
-			cmd.Env = append(cmd.Env, k+"="+v)
-		}
-		outb, err := cmd.Output()
-		cls := strings.TrimSpace(string(outb))
-		ot := "OTimeout"
-		switch {
-		case ctx.Err() != nil:
-			cls = "timeout"
-		case strings.HasPrefix(cls, "error:"):
-			ot = cApp("OError", cBool(c10ErrRe.MatchString(strings.TrimPrefix(cls, "error:"))))
-			cls = "error"
-		case strings.HasPrefix(cls, "ok"):
-			ot = "(OBlocks [])"
-			cls = "ok"
-		case strings.HasPrefix(cls, "panic"):
-			ot = "OPanic"
-		default:
-			cls = "killed:" + fmt.Sprint(err) // memory cap or crash: did not terminate properly
-		}
-		return Result{Term: cApp("CParse", "1", "[]", cRunes("import cyclic"), ot, "None"), Obs: map[string]interface{}{"class": cls, "files": in.Files},
-			Sig: "cycle:" + in.Text + ":" + strings.SplitN(cls, ":", 2)[0], Nontrivial: true, Class: "cycle:" + cls}
-	case "ast":
-		inline, main, files := c10Render(in)
-		if c10Dir == "" {
-			base := os.Getenv("VERIF_ROOT")
-			if base == "" {
-				base = os.TempDir()
+func c10Mutate(s string, r *Rand) string {
+	rs := []rune(s)
+	for k := r.Range(1, 3); k > 0 && len(rs) > 0; k-- {
+		i := r.Intn(len(rs))
+		switch r.Intn(5) {
+		case 0: // drop a structural character near i
+			for j := 0; j < len(rs); j++ {
+				p := (i + j) % len(rs)
+				if strings.ContainsRune("{}\"", rs[p]) {
+					rs = append(rs[:p:p], rs[p+1:]...)
+					break
+				}
 			}
-			c10Dir, _ = os.MkdirTemp(filepath.Join(base, "run"), "c10")
+		case 1:
+			rs = append(rs[:i:i], append([]rune(r.Pick([]string{"{", "}", "\"", " { ", " } ", "\n}\n", "\n{\n", "import ", "\nimport\n", "\\"})), rs[i:]...)...)
+		case 2: // truncate
+			rs = rs[:i]
+		case 3: // duplicate a slice
+			j := min(len(rs), i+r.Range(1, 12))
+			rs = append(rs[:j:j], append(append([]rune{}, rs[i:j]...), rs[j:]...)...)
+		default: // swap a newline and a space
+			for j := 0; j < len(rs); j++ {
+				p := (i + j) % len(rs)
+				if rs[p] == '\n' {
+					rs[p] = ' '
+					break
+				} else if rs[p] == ' ' {
+					rs[p] = '\n'
+					break
+				}
+			}
 		}
-		for name, content := range files {
-			os.WriteFile(filepath.Join(c10Dir, name), []byte(content), 0o644)
-		}
-		path := filepath.Join(c10Dir, "Casketfile")
-		blocks, err, p, to := c10ParseGuarded(path, []byte(main))
-		for name := range files {
-			os.Remove(filepath.Join(c10Dir, name))
-		}
-		if to {
-			c10Poisoned = true
-		}
-		ot, cls := c10ObsTerm(blocks, err, p, to)
-		direct := ""
-		if p != "" {
-			direct = "panic: " + p
-		}
-		return Result{Term: cApp("CParse", cN(uint64(in.Split)), c10EnvTerm(), cRunes(inline), ot, c10Expected(in.Blocks)),
-			Obs: map[string]interface{}{"class": cls, "err": fmt.Sprint(err), "main": main, "files": files},
-			Sig: fmt.Sprintf("ast:split%d:%s", in.Split, cls), Direct: direct, Nontrivial: true, Class: fmt.Sprintf("ast:split%d:%s", in.Split, cls)}
 	}
-	panic("bad kind")
+	return string(rs)
 }
 
 func c10Gen(r *Rand, tier string) []interface{} {
 	var out []interface{}
-	nLex, nRaw, nAst := 700, 700, 900
+	nLex, nRaw, nAst, nMal, nCyc := 600, 450, 600, 200, 12
 	if tier == "thorough" {
-		nLex, nRaw, nAst = 12000, 12000, 15000
+		nLex, nRaw, nAst, nMal, nCyc = 10000, 9000, 13000, 4000, 120
 	}
-	alpha := []string{"a", "b", "c", " ", " ", "\t", "\n", "\n", "\r", "\"", "\"", "\\", "#", "{", "}", ",", " ", " ", "é", "\xff", "\v", "x"}
+	alpha := []string{"a", "b", "c", " ", " ", "\t", "\n", "\n", "\r", "\"", "\"", "\\", "#", "{", "}", ",", " ", " ", "é", "\xff", "\v", "x", " ", " "}
 	for i := 0; i < nLex; i++ {
 		var sb strings.Builder
 		if r.Chance(5) {
@@ -439,85 +870,211 @@ func c10Gen(r *Rand, tier string) []interface{} {
 		}
 		out = append(out, &c10In{Kind: "lex", Text: sb.String()})
 	}
-	words := []string{"a.com", "b.com,", "dir1", "dir2", "arg", "{", "}", "{", "}", "\"q w\"", "\"multi\nline\"", "x,", "{$V_A}", "{%V_E%}", "{$V_UNSET}", "#c", "\n", "\n", "\n", "import", "nofile.conf", "\"\"", "(snip)", "\"unterminated", "\\", ","}
-	for i := 0; i < nRaw; i++ {
+	// token soups, with a few files and directories around them
+	words := []string{"a.com", "b.com,", "dir1", "dir2", "arg", "{", "}", "{", "}", "\"q w\"", "\"multi\nline\"", "x,", "{$V_A}", "{%V_E%}", "{$V_UNSET}", "#c", "\n", "\n", "\n",
+		"import", "import", "nofile.conf", "inc1.conf", "inc?.conf", "sub/*.conf", "*", "sub", "sn", "(sn)", "(sn)", "\"\"", "\"unterminated", "\\", ",", "{$V_BR}", "{$V_IMP}", "{$V_F}", "a*b*", "[x]", "{$V_NL}"}
+	soup := func(n int) string {
 		var sb strings.Builder
-		for k := r.Range(0, 25); k > 0; k-- {
+		for k := r.Range(0, n); k > 0; k-- {
 			sb.WriteString(r.Pick(words))
-			sb.WriteString(r.Pick([]string{" ", " ", "\n", "\t", ""}))
+			sb.WriteString(r.Pick([]string{" ", " ", "\n", "\n", "\t", ""}))
 		}
-		out = append(out, &c10In{Kind: "raw", Text: sb.String()})
+		return sb.String()
+	}
+	for i := 0; i < nRaw; i++ {
+		in := &c10In{Kind: "parse", Tag: "raw", Main: soup(25)}
+		if toks := c10Lex(in.Main); len(toks) > 8 {
+			for k := 0; k+1 < len(toks); k++ {
+				if toks[k+1] == "*" && (toks[k] == "import" || toks[k] == "{$V_IMP}") {
+					// `import *` matches the Casketfile itself: every one of the 10000 imports splices the
+					// whole file again (quadratic, ~40 s for 15 tokens); keep such self-importing soups short
+					in.Main = "import *\n" + soup(5)
+					break
+				}
+			}
+		}
+		if r.Chance(60) {
+			in.Files = map[string]string{"inc1.conf": r.Pick([]string{"dir1 x\n", "dir2 {\n a b\n}\n", "", "b.com {\n}\n", "x y\nimport inc2.conf\n", "}", "{", "dir1 {"}), "inc2.conf": soup(6)}
+			if r.Chance(50) {
+				in.Files["sub/z.conf"] = soup(5)
+				in.Files["sub/y.conf"] = "import z.conf\n"
+			}
+			if r.Chance(30) {
+				in.Dirs = []string{"adir"}
+			}
+		}
+		// a soup can import itself (`import *`, `import Casketfile`, mutually importing files): 10000
+		// imports take seconds, so anything that mentions import runs in a child process
+		all := in.Main
+		for _, c := range in.Files {
+			all += c
+		}
+		if strings.Contains(all, "import") || strings.Contains(all, "V_IMP") {
+			in.Child = true
+			in.Text = "soup"
+		}
+		out = append(out, in)
 	}
 	keyPool := []string{"a.com", "b.com:8080", "http://x.org", ":2015", "c.com/path", "{$V_A}.com", "*.d.com"}
 	dirPool := []string{"dir1", "dir2", "gzip", "root", "header", "{$V_A}dir"}
-	argPool := []string{"x", "y", "/path", "two words", "multi\nline", "say \"hi\"", "#notcomment", "a#b", "{$V_A}", "pre{%V_A%}post", "{$V_E}", "{$V_UNSET}z", "", "tab\there", "é", "back\\slash", "{$V_SP}", "comma,", "-1", "k=v", "x\\\ny", "\\\n", "q\\", "{$V_REC}", "{$V_LOOP}{$V_A}", "{$V_E}{$V_A}{$V_E}", "{$V_PCT}", "{%V_REC%}", "{$}", "{$V_A", "a}{$V_A}"}
+	argPool := []string{"x", "y", "/path", "two words", "multi\nline", "say \"hi\"", "#notcomment", "a#b", "{$V_A}", "pre{%V_A%}post", "{$V_E}", "{$V_UNSET}z", "", "tab\there", "é", "back\\slash", "{$V_SP}", "comma,", "-1", "k=v", "x\\\ny", "\\\n", "q\\", "{$V_REC}", "{$V_LOOP}{$V_A}", "{$V_E}{$V_A}{$V_E}", "{$V_PCT}", "{%V_REC%}", "{$}", "{$V_A", "a}{$V_A}", "import", "{$V_UNSET:dflt}", "{$V_A:dflt}x", "{%V_UNSET:-d%}"}
 	subPool := []string{"opt1", "opt2", "rule", "to"}
-	mkLine := func(depth int) c10Line {
+	var mkLine func(depth int, nl bool) c10Line
+	mkLine = func(depth int, nl bool) c10Line {
 		l := c10Line{Dir: r.Pick(dirPool)}
-		for k := r.Intn(4); k > 0; k-- {
-			l.Args = append(l.Args, r.Pick(argPool))
+		if depth > 0 {
+			l.Dir = r.Pick(subPool)
 		}
-		if r.Chance(30) {
+		for k := r.Intn(4); k > 0; k-- {
+			if nl && r.Chance(30) {
+				l.Args = append(l.Args, r.Pick([]string{"{$V_NL}", "a{$V_NL}"}))
+			} else {
+				l.Args = append(l.Args, r.Pick(argPool))
+			}
+		}
+		if depth < 3 && r.Chance(30-8*depth) {
 			for k := r.Range(1, 3); k > 0; k-- {
-				s := c10Line{Dir: r.Pick(subPool)}
-				for j := r.Intn(3); j > 0; j-- {
-					s.Args = append(s.Args, r.Pick(argPool))
-				}
-				if depth == 0 && r.Chance(15) {
-					s.Sub = []c10Line{{Dir: r.Pick(subPool), Args: []string{r.Pick(argPool)}}}
-				}
-				l.Sub = append(l.Sub, s)
+				l.Sub = append(l.Sub, mkLine(depth+1, nl))
 			}
 		}
 		return l
 	}
-	for i := 0; i < nAst; i++ {
-		in := &c10In{Kind: "ast", Seed: r.U64() % 1000003, Braces: r.Chance(60), Split: r.Intn(3)}
+	mkBlocks := func(nl bool) []c10Block {
 		nb := 1
 		if r.Chance(40) {
 			nb = r.Range(2, 3)
 		}
+		var blocks []c10Block
 		for b := 0; b < nb; b++ {
 			blk := c10Block{}
 			perm := r.Perm(len(keyPool))
 			for k := 0; k < r.Range(1, 3); k++ {
 				blk.Keys = append(blk.Keys, keyPool[perm[k]])
 			}
-			for k := r.Range(0, 5); k > 0; k-- {
-				blk.Lines = append(blk.Lines, mkLine(0))
+			for k := r.Range(0, 6); k > 0; k-- {
+				blk.Lines = append(blk.Lines, mkLine(0, nl))
 			}
-			in.Blocks = append(in.Blocks, blk)
+			blocks = append(blocks, blk)
 		}
-		out = append(out, in)
+		return blocks
+	}
+	tags := []string{"ast:inline", "ast:files", "ast:snippets", "ast:mixed"}
+	for i := 0; i < nAst; i++ {
+		mode := r.Intn(4)
+		nl := i%40 == 39 // a few configurations use an environment value that contains a line break
+		blocks := mkBlocks(nl)
+		main, files := c10Render(blocks, mode, r.Chance(60), r.U64()%1000003)
+		tag := tags[mode]
+		if nl {
+			tag = "ast:env-newline"
+		}
+		out = append(out, &c10In{Kind: "parse", Tag: tag, Main: main, Files: files, HasExp: true, Expected: c10Expected(blocks)})
+	}
+	// malformed block structure: a rendered configuration with braces/quotes/imports damaged
+	for i := 0; i < nMal; i++ {
+		blocks := mkBlocks(false)
+		main, files := c10Render(blocks, r.Intn(4), r.Chance(60), r.U64()%1000003)
+		if len(files) > 0 && r.Chance(40) {
+			var names []string
+			for n := range files {
+				names = append(names, n)
+			}
+			sort.Strings(names)
+			n := r.Pick(names)
+			files[n] = c10Mutate(files[n], r)
+		} else {
+			main = c10Mutate(main, r)
+		}
+		mal := &c10In{Kind: "parse", Tag: "malformed", Main: main, Files: files}
+		if all := main + fmt.Sprint(files); strings.Contains(all, "import") {
+			mal.Child, mal.Text = true, "damaged"
+		}
+		out = append(out, mal)
+	}
+	// import graphs with a cycle reachable from the main file
+	for i := 0; i < nCyc; i++ {
+		k := r.Range(1, 4)
+		files := map[string]string{}
+		where := r.Intn(3) // 0 directive level, 1 inside a sub-block, 2 top level
+		for j := 0; j < k; j++ {
+			next := fmt.Sprintf("c%d.conf", (j+1)%k)
+			var sb strings.Builder
+			for n := r.Intn(3); n > 0; n-- {
+				if where == 2 {
+					sb.WriteString(fmt.Sprintf("h%d.com {\n\tdir1 x\n}\n", n))
+				} else {
+					sb.WriteString("dir1 " + r.Pick([]string{"x", "y z", "\"q w\""}) + "\n")
+				}
+			}
+			sb.WriteString("import " + next + "\n")
+			if r.Chance(40) && where != 2 {
+				sb.WriteString("dir2 after\n")
+			}
+			files[fmt.Sprintf("c%d.conf", j)] = sb.String()
+		}
+		var main string
+		switch where {
+		case 0:
+			main = "a.com {\n\tgzip\n\timport c0.conf\n}\n"
+		case 1:
+			main = "a.com {\n\tproxy / b {\n\t\timport c0.conf\n\t}\n}\n"
+		default:
+			main = "import c0.conf\n"
+		}
+		out = append(out, &c10In{Kind: "parse", Tag: "cycle", Text: fmt.Sprintf("gen-k%d-w%d", k, where), Main: main, Files: files, Child: true})
+	}
+	for _, x := range out {
+		if in := x.(*c10In); in.Child {
+			c10ChildInputs = append(c10ChildInputs, in)
+		}
 	}
 	return out
 }
 
 func init() {
 	extraCommands["c10child"] = func(args []string) int {
-		defer func() {
-			if r := recover(); r != nil {
-				fmt.Println("panic:", r)
+		path := args[0]
+		dir := filepath.Dir(path)
+		var o c10Obs
+		func() {
+			defer func() {
+				if r := recover(); r != nil {
+					o = c10Obs{Class: "panic", Panic: fmt.Sprint(r)}
+				}
+			}()
+			data, err := os.ReadFile(path)
+			if err != nil {
+				o = c10Obs{Class: "killed", Err: err.Error()}
+				return
 			}
+			var names []string
+			filepath.Walk(dir, func(p string, info os.FileInfo, err error) error {
+				if err == nil && p != dir {
+					rel, _ := filepath.Rel(dir, p)
+					names = append(names, rel)
+				}
+				return nil
+			})
+			sort.Strings(names)
+			blocks, perr := casketfile.Parse(path, bytes.NewReader(data), nil)
+			o = c10Observe(blocks, perr, "", dir, names)
 		}()
-		data, err := os.ReadFile(args[0])
-		if err != nil {
-			fmt.Println("error:", err)
-			return 0
-		}
-		_, perr := casketfile.Parse(args[0], bytes.NewReader(data), nil)
-		if perr != nil {
-			fmt.Println("error:" + perr.Error())
-		} else {
-			fmt.Println("ok")
-		}
+		b, _ := json.Marshal(o)
+		os.Stdout.Write(b)
 		return 0
 	}
 	register(&Property{
-		ID: "C10", Imports: "V.Lib V.C10_Model", Judge: "judge", Shard: 150,
-		Rule: "lexer: random rune strings over a quote/escape/comment/space alphabet (incl. BOM, NBSP, U+2028, invalid UTF-8) through NewDispenser; parser: structure-aware token soups through casketfile.Parse with panic capture + watchdog; random ASTs (blocks, keys, directives, quoted/escaped/multi-line/env args, nested sub-blocks) rendered with random layout and parsed inline, split into imported files, or through snippets — compared with the model's parse of the inline text and with the generating AST; non-trivial = >=2 tokens / parsed blocks / every AST case",
+		ID: "C10", Imports: "V.Lib V.C10_Model", Judge: "judge", Shard: 120,
+		Rule: "lexer: random rune strings over a quote/escape/comment/space alphabet (incl. BOM, NBSP, U+2028, invalid UTF-8) through NewDispenser; parser: token soups with importable files, sub-directories and snippets around them through casketfile.Parse (panic capture + watchdog, child process when an import cycle is possible); random ASTs (blocks, keys, directives, quoted/escaped/multi-line/env args, sub-blocks nested to depth 3) rendered with random layout and a random partition into imported files (nested to depth 4, sub-directories, glob groups, env-expanded patterns, whole sites), snippets (incl. snippets importing snippets and a snippet file) — the model parses the SAME files through a glob/file oracle and must give the same keys and (file, line, text) tokens or the same error class, and the output must equal the generating AST in texts and line structure; damaged renderings (malformed block structure); generated import cycles of length 1-4 at directive, sub-block and top level; non-trivial = >=2 tokens / parsed blocks / every AST, file or cycle case",
 		Gen:    c10Gen,
-		Decode: func(raw json.RawMessage) (interface{}, error) { in := &c10In{}; return in, json.Unmarshal(raw, in) },
+		Decode: func(raw json.RawMessage) (interface{}, error) {
+			in := &c10In{}
+			err := json.Unmarshal(raw, in)
+			if err == nil && in.Child {
+				c10ChildInputs = append(c10ChildInputs, in)
+			}
+			return in, err
+		},
 		Run:    c10Run,
 	})
 }
